@@ -105,6 +105,9 @@ func applyOp(view rsra, ref []byte, st *ioState, op ioOp, mask func(off int64, b
 		return "", "read-ok"
 	case "readat":
 		buf := make([]byte, op.N)
+		for i := range buf {
+			buf[i] = 0x5A // a reused, dirty buffer: bytes the view claims to have produced must really be written
+		}
 		n, err := view.ReadAt(buf, op.Off)
 		if op.Off < 0 {
 			if err == nil {
